@@ -108,6 +108,18 @@ def run_encode(spec, ctx):
                     decoded = [tuple(ord(ch) - 59 for ch in f) for f in fields]
                     rebuilt = numpoly.polynomial(raw, names=names)
                     via_dict = numpoly.polynomial(poly.todict(), names=names)
+                    # the same exponent table handed over as an integer array of the narrowest
+                    # type that holds it (uint8 / uint16 / int16 / int32 / uint32 ...)
+                    top = max(max(r) for r in rows)
+                    narrow = [d for d in ("uint8", "int16", "uint16", "int32", "uint32", "int64")
+                              if top <= numpy.iinfo(d).max]
+                    from_array = []
+                    for dtype in narrow[:2] + narrow[-1:]:
+                        arr = numpy.array(rows, dtype=dtype)
+                        alt = numpoly.polynomial_from_attributes(arr, coefs, names=names)
+                        from_array.append((dtype, sorted(tuple(int(v) for v in r)
+                                                         for r in alt.exponents)))
+                        ctx.count("exponent_array_dtypes")
             except Exception as err:  # pylint: disable=broad-except
                 ctx.violation(dict(facts, failure=exc_fact(err)),
                               f"exponents {start}..{exps[-1]} (position {pos} of {ndim}) raised "
@@ -121,7 +133,13 @@ def run_encode(spec, ctx):
             want = {tuple(r): (int(c[0]), int(c[1])) for r, c in zip(rows, coefs)}
             have = {r: (int(c[0]), int(c[1])) for r, c in zip(got_rows, poly.coefficients)}
             bad = None
-            if have != want:
+            for dtype, alt_rows in from_array:
+                if alt_rows != sorted(map(tuple, rows)):
+                    bad = (f"exponents given as a {dtype} array are stored as "
+                           f"{[r for r in alt_rows if r not in set(map(tuple, rows))][:4]}")
+            if bad is not None:
+                pass
+            elif have != want:
                 bad = f"exponents/coefficients read back differ: {sorted(set(have) ^ set(want))[:4]}"
             elif len(set(fields)) != len(rows) or sorted(decoded) != sorted(map(tuple, rows)):
                 bad = f"raw field names decode to {sorted(set(decoded) ^ set(map(tuple, rows)))[:4]}"
